@@ -182,7 +182,7 @@ def rule_orphan_moved(ctx, crate, rule="R-ORPHAN-MOVED"):
                 and fo.bb in d.reach_after(fe.bb) | {fe.bb} or False
             ok = ok and d.must_pass([0], [fo.bb], to=[fm.bb])
         # lines queued for a target that cannot show them are dropped, not kept for later: every return of draw() - other than
-        # the panicking() one and the refusal of the (forced) drawable - has emptied the queue. Text queued while the
+        # the panicking() one - has emptied the queue (or was taken because the queue is empty). Text queued while the
         # MultiProgress was hidden would otherwise surface below newer lines once a visible target is installed.
         consumers = {c.bb for c, k in uses_of_field_ref(d, "orphan_lines") if c.matches(*MOVING) or c.matches(r"std::vec::Vec::<T, A>::(clear|truncate)")}
         exempt = set()
@@ -190,20 +190,24 @@ def rule_orphan_moved(ctx, crate, rule="R-ORPHAN-MOVED"):
             sl = d.slice(t["op"], at=sb)
             if sl.has_call(r"std::thread::panicking"):
                 exempt.add((sb, t["otherwise"]))
-        for sb, t, pl, dd in K.discr_switches(d):
-            if K.head_of_type(pl.get("ty", "")) == "std::option::Option" and d.slice({"k": "copy", "place": {"l": pl["l"], "p": []}}, through_calls=False).has_call(K.PDT_DRAWABLE):
-                for tgt, vs in K.edge_variants(crate, t, "std::option::Option").items():
-                    if vs == {"None"}:
-                        exempt.add((sb, tgt))
+        # (the refusal of the drawable is *not* exempt: pending text forces the draw, so a refusal with text pending means a target
+        #  that shows nothing - a Term that is not a tty - and the text has to be dropped there as for a target without a width)
         err = set()
         for k_ in d.calls(K.TRY_BRANCH):
             te = K.try_edges(d, k_)
             if te:
                 err.add((te[0], te[2]))
+        # a return taken because the queue *is* empty leaves nothing queued: the true edge of a plain `orphan_lines.is_empty()` test
+        for sb, t in d.switches():
+            l_ = operand_local(t["op"])
+            ds_ = [x for x in d.defs().get(l_, ())] if l_ is not None and not t["op"]["place"]["p"] else []
+            if len(ds_) == 1 and ds_[0]["kind"] == "call" and ds_[0]["call"].matches(r"std::vec::Vec::<T, A>::is_empty") and \
+                    d.slice_args(ds_[0]["call"], [0], through_calls=False).has_field("orphan_lines"):
+                exempt.add((sb, t["otherwise"]))
         leak = d.reach([0], avoid=consumers, avoid_edges=exempt | err) & set(d.return_blocks())
         ctx.check(not leak, rule, "hidden-target-drops-orphans", d.name, K.fn_loc(d),
-                  "every return of MultiState::draw (panicking / refused drawable excepted) has emptied the orphan queue",
-                  "MultiState::draw can return with the orphan lines still queued (the early return for a target without a width, i.e. a hidden MultiProgress): "
+                  "every return of MultiState::draw (panicking excepted) has emptied the orphan queue",
+                  "MultiState::draw can return with the orphan lines still queued (an early return for a target that shows nothing: no width = hidden, or a refused drawable = a Term that is not a tty): "
                   "text printed through a member while hidden is painted later, below newer lines, once a visible target is installed", cfg)
         ctx.check(ok, rule, "frame-feed-order", d.name, K.fn_loc(d),
                   "the frame is fed in the order println text, orphan lines, member bars (%s)" % kinds,
@@ -362,6 +366,34 @@ def rule_row_transfer_pairing(ctx, crate, rule="R-ROW-TRANSFER-PAIRING"):
                           "when only orphan lines (a bar's println) are printed, the zombie rows are handed over to the erase count as for MultiProgress::println",
                           "a bar's println text is painted below kept zombie rows while they stay counted: the next println/clear applies Clear(zombie_lines_count) "
                           "to the rows of that text (pb.println(\"x\") after a reaped bar, then mp.println(\"y\") erases x)", cfg)
+        # (d') "only orphan lines are printed" is asked while the queue still holds them: no test of the queue (is_empty / len / its
+        #      row count) may be evaluated after the queue was drained into the frame in the same call - it would always read
+        #      "nothing pending", and a bar's println would never hand the zombie rows over
+        if b.name == "multi::MultiState::draw":
+            drains = [c for c in b.calls(r"std::vec::Vec::<T, A>::(append|drain|clear|split_off|truncate)", r"std::mem::(take|replace|swap)", r"std::vec::Vec::<T, A>::extend.*")
+                      if any(b.slice(a, at=c.bb, through_calls=False).has_field("orphan_lines") for a in c.args
+                             if isinstance(a, dict) and a.get("k") in ("move", "copy") and (a["place"].get("ty") or "").startswith("&mut"))]
+            reads = [c for c in b.calls(r"std::vec::Vec::<T, A>::(is_empty|len)", r"core::slice::<impl \[T\]>::(is_empty|len)", r"multi::visual_line_count")
+                     if c.args and b.slice_args(c, [0], through_calls=False).has_field("orphan_lines")]
+            if drains and reads:
+                n += 1
+                hand_over = {cbb for (cbb, cs_, csl_) in clears} | {zi for zi, zs in zeros}
+
+                def decides_hand_over(r_):
+                    for sb, t in b.switches():
+                        if not any(b.edge_dominates((sb, x), h) for x in b.succ(sb) for h in hand_over):
+                            continue
+                        if any(any(k.bb == r_.bb for k in sl_.calls) for sl_ in K.cond_slices(b, sb)):
+                            return True
+                    return False
+                stale = [r_ for r_ in reads if any(r_.bb in b.reach_after(d_.bb) for d_ in drains) and decides_hand_over(r_)]
+                ctx.check(not stale, rule, "orphans-tested-before-drained", b.name, (stale or reads)[0].loc(),
+                          "the orphan-line queue is tested before it is drained into the frame",
+                          "the orphan-line queue is tested (line %s) after it was drained into the frame in the same call: the test always reads \"nothing pending\", so a draw "
+                          "caused by a bar's println never hands the zombie rows over (the printed text is painted below them and erased by the next println/clear)"
+                          % ", ".join(str(r_.line) for r_ in stale), cfg)
+            elif not reads:
+                ctx.lost(rule, cfg, "MultiState::draw no longer tests the orphan-line queue")
         # (b) every Clear(zombie_lines_count) is followed on all paths by a zero store
         zero_bbs = [i for i, s in zeros]
         for (cbb, cs, csl) in clears:
